@@ -1,1 +1,4 @@
 //! Hooks of group 'auth' for the /verif machinery.
+
+/// C35: plain-field construction of account policies and the real fold.
+pub use crate::idm::accountpolicy::verif as accountpolicy;
